@@ -3,7 +3,8 @@ import ast
 
 from ..core import Property, AnalysisError, unparse, norm, walk_no_nested
 from ..cfg import build_cfg
-from ..dfa import guards_of
+from ..sym import show
+from ..dfa import guards_of, ReachingDefs
 from ..query import queries_in, resolved_filters, parse_chain
 from .. import mut
 
@@ -556,3 +557,92 @@ def loop_fresh(ctx):
     row, key or amount written for one item is never the one left over from the previous item."""
     from .common_loopfresh import loop_fresh as run
     run(ctx, [W], 'the spent flag / key / amount of one output is written with the data of the previous one')
+
+
+@PROP.obligation('C08.key-order', canaries=[
+    mut.replace_stmt('wallets', 'Wallet._new_key_multisig', 'public_key_ids = [str(x.key_id) for x in public_keys]', 'public_key_ids = sorted(str(x.key_id) for x in public_keys)', 'stored cosigner-key order follows the key ids, not the script'),
+])
+def key_order(ctx):
+    """A stored multisig transaction is rebuilt (WalletTransaction.from_txid) from the cosigner keys of its address in STORED order
+    (DbKeyMultisigChildren.key_order), without sorting. Wallet._new_key_multisig is evaluated as a whole for three cosigner keys given
+    out of order: the key stored at position i is the key at position i of the redeem script it built, with and without sort_keys."""
+    from .c10 import multisig_scenario
+    pubs = {7: b'\x03' * 33, 5: b'\x02' * 33, 9: b'\x02' + b'\x01' * 32}
+    q = 'wallets:Wallet._new_key_multisig'
+    fn = ctx.repo.func(q)
+    n = 0
+    for sort_keys in (True, False):
+        script, kids = multisig_scenario(ctx, sort_keys, [7, 5, 9], pubs, 2)
+        keys = script.get('keys')
+        if not isinstance(keys, list) or len(keys) != 3 or len(kids) != 3:
+            ctx.undecided('_new_key_multisig scenario: script keys %s, %d stored children' % (show(keys)[:60], len(kids)))
+        for row in kids:
+            i, c = row.get('key_order'), row.get('child_id')
+            if not isinstance(i, int) or c not in pubs:
+                ctx.undecided('_new_key_multisig scenario: stored child row %s not decided' % {k: show(v)[:30] for k, v in row.items() if k != 'parent_id'})
+            n += 1
+            ctx.require(keys[i] == pubs[c], q, 'with sort_keys=%s the cosigner key stored at position %d is not the key at position %d of the redeem script' % (sort_keys, i, i), fn,
+                        'a stored spend of that address reloads with a redeem script in another key order: another scriptSig / witness program hash, another serialization, and it no longer verifies')
+        ctx.saw('sort_keys=%s: stored order %s matches the script' % (sort_keys, [(r.get('key_order'), r.get('child_id')) for r in kids]))
+    ctx.floor(n, 6, 'stored cosigner keys')
+
+
+def _const_test(test, env):
+    """three-valued value of a test under the bindings ``env`` (None: depends on something else)"""
+    if isinstance(test, ast.BoolOp):
+        vals = [_const_test(v, env) for v in test.values]
+        if isinstance(test.op, ast.And):
+            return False if any(v is False for v in vals) else (True if all(v is True for v in vals) else None)
+        return True if any(v is True for v in vals) else (False if all(v is False for v in vals) else None)
+    if isinstance(test, ast.UnaryOp) and isinstance(test.op, ast.Not):
+        v = _const_test(test.operand, env)
+        return None if v is None else not v
+    names = set(x.id for x in ast.walk(test) if isinstance(x, ast.Name))
+    if not names <= set(env) | {'len', 'isinstance', 'list', 'dict', 'bool'} or any(isinstance(x, (ast.Call, ast.Attribute)) and not (isinstance(x, ast.Call) and isinstance(x.func, ast.Name) and x.func.id in ('len', 'isinstance', 'bool'))
+                                                                              for x in ast.walk(test)):
+        return None
+    try:
+        return bool(eval(compile(ast.Expression(test), '<guard>', 'eval'), {'__builtins__': {'len': len, 'isinstance': isinstance, 'list': list, 'dict': dict, 'bool': bool}}, dict(env)))
+    except Exception:
+        return None
+
+
+@PROP.obligation('C08.snapshot-honoured', canaries=[
+    mut.Canary('an empty snapshot is treated as "no snapshot": the provider is asked', W, lambda tree: _mut_snapshot(tree)),
+])
+def snapshot_honoured(ctx):
+    """Wallet.utxos_update(utxos=[...]) books exactly the caller's snapshot of unspent outputs. An EMPTY snapshot is a snapshot (all outputs
+    were spent elsewhere): every construction / call of a Service in the method is dominated by a test that is false for utxos == [] and
+    true only for utxos is None - the providers are asked only when no snapshot was given."""
+    q = W + ':Wallet.utxos_update'
+    f = ctx.repo.func(q)
+    if 'utxos' not in [a.arg for a in f.args.args]:
+        ctx.undecided('Wallet.utxos_update has no utxos parameter any more')
+    rd = ReachingDefs(f)
+    g = rd.cfg
+    srv_names = set(n.targets[0].id for n in ast.walk(f) if isinstance(n, ast.Assign) and isinstance(n.targets[0], ast.Name) and isinstance(n.value, ast.Call) and norm(n.value.func) == 'Service')
+    sites = [c for c in ast.walk(f) if isinstance(c, ast.Call) and (norm(c.func) == 'Service' or (isinstance(c.func, ast.Attribute) and isinstance(c.func.value, ast.Name) and c.func.value.id in srv_names))]
+    ctx.floor(len(sites), 2, 'Service constructions / calls in utxos_update')
+    by_id = {n.id: n for n in g.nodes}
+    for c in sites:
+        nid = rd.node_of_ast(c)
+        verdicts = {}
+        for snap, label in (([], 'an empty snapshot'), ([{'txid': 'aa'}], 'a snapshot'), (None, 'no snapshot')):
+            reach = True
+            for tid, pol in guards_of(g, nid):
+                t = by_id[tid].ast
+                v = _const_test(getattr(t, 'test', t), {'utxos': snap})
+                if v is not None and v != (pol == 'T'):
+                    reach = False
+            verdicts[label] = reach
+        ctx.saw('%s reachable with %s' % (norm(c)[:50], [k for k, v in verdicts.items() if v]))
+        for label in ('an empty snapshot', 'a snapshot'):
+            ctx.require(not verdicts[label], q, '`%s` is reached although the caller supplied %s of unspent outputs (utxos=%s)' % (norm(c)[:60], label, '[]' if 'empty' in label else '[...]'), c,
+                        'the wallet books what the provider reports instead of the snapshot: outputs the snapshot says are gone reappear, balance and key balances no longer equal the unspent outputs handed in')
+        if not verdicts['no snapshot']:
+            ctx.undecided('utxos_update: `%s` is not reachable without a snapshot either' % norm(c)[:60])
+
+
+def _mut_snapshot(tree):
+    r = mut.replace_expr(W, 'Wallet.utxos_update', 'utxos is None', 'not utxos').mutate(tree)
+    return bool(r)
